@@ -447,6 +447,37 @@ pub mod ops {
                     .join(",");
                 format!("M:{};P:{};A:{}", fmt_lines(&am), fmt_lines(&ap), fmt_al)
             }
+            // wrap_line <line_width> <--wrap-max-lines value> <style:hex text,...>
+            // styles are small numbers; the fill style is 99, inserted symbols carry it
+            "wrap_line" => {
+                let width: usize = fields[1].parse().unwrap_or(0);
+                let env = crate::env::DeltaEnv::default();
+                let opt = crate::cli::Opt::from_iter_and_git_config(
+                    &env,
+                    vec!["delta", "--no-gitconfig", "--wrap-max-lines", fields[2].as_str()],
+                    None,
+                );
+                let config = crate::config::Config::from(opt);
+                let texts: Vec<(u8, String)> = fields[3]
+                    .split(',')
+                    .filter(|e| !e.is_empty())
+                    .map(|e| {
+                        let (a, b) = e.split_once(':').unwrap_or((e, ""));
+                        (a.parse().unwrap_or(0), hex_str(b))
+                    })
+                    .collect();
+                let line: Vec<(u8, &str)> = texts.iter().map(|(st, t)| (*st, t.as_str())).collect();
+                let rows = crate::wrapping::wrap_line(&config, line, width, &99u8, &None);
+                rows.iter()
+                    .map(|row| {
+                        row.iter()
+                            .map(|(st, t)| format!("{}:{}", st, hex_encode(t.as_bytes())))
+                            .collect::<Vec<_>>()
+                            .join(",")
+                    })
+                    .collect::<Vec<_>>()
+                    .join("|")
+            }
             op => {
                 let _ = hex_decode("");
                 format!("UNKNOWN-OP {op}")
